@@ -4,7 +4,7 @@
    the two halves of a split text around the inserted content, adjacent texts joined) no condition on the schema is
    needed (`TextStable` was, while the test `can_replace(index, index, insert)` was not about the built content); a
    complete node that receives the gap is valid because its built content was validated.  Closed slices need nothing
-   but valid nodes; slices with open sides: normal form of slice content and gap (for the cuts beside the spine). -/
+   but valid nodes; slices with open sides: normal form of the slice content (for the cuts beside the spine). -/
 import Proofs.FitAround
 import Proofs.InsertSuccess
 import Proofs.PlacementValid
@@ -464,8 +464,7 @@ theorem set_open (S : Schema) (oa ob : Nat) (pre ns : List Node) (ty : TypeId) (
 
 /-! ### the general descent -/
 
-theorem insertInto_open_valid (S : Schema) (gap : List Node) (hg : S.checkKids gap = true)
-    (hgn : fnorm gap = true) :
+theorem insertInto_open_valid (S : Schema) (gap : List Node) (hg : S.checkKids gap = true) :
     ∀ (rest pre : List Node) (d oa ob : Nat) (c : List Node),
     fnorm (pre ++ rest) = true → openValid S oa ob (pre ++ rest) = true →
     oa ≤ fsize pre + d → fsize pre + d + ob ≤ fsize (pre ++ rest) →
@@ -494,7 +493,7 @@ theorem insertInto_open_valid (S : Schema) (gap : List Node) (hg : S.checkKids g
           rw [fsize_append]; simp only [fsize_cons, fsize_nil]; omega
         have e3 : pre.length + 1 = (pre ++ [n]).length := by simp
         rw [e1, e2, e3] at h
-        have := insertInto_open_valid S gap hg hgn ns (pre ++ [n]) (d - n.size) oa ob c
+        have := insertInto_open_valid S gap hg ns (pre ++ [n]) (d - n.size) oa ob c
           (by rw [← e1]; exact hn) (by rw [← e1]; exact hv) (by rw [← e2]; exact ha)
           (by rw [← e1, ← e2]; exact hb) h
         exact this
@@ -555,7 +554,7 @@ theorem insertInto_open_valid (S : Schema) (gap : List Node) (hg : S.checkKids g
                   simp only [fsize_nil] at hb
                   omega
                 · omega
-              exact insertInto_open_valid S gap hg hgn kids [] (d - 1) _ _ inner (by simpa using hkn)
+              exact insertInto_open_valid S gap hg kids [] (d - 1) _ _ inner (by simpa using hkn)
                 (by simpa using hset.1) ha' hb' (by simpa using hin)
             · simp at h
             · simp at h
@@ -583,7 +582,7 @@ termination_by rest => sizeOf rest
 /-- **`Slice.insert_at(pos, gap)` keeps payload validity** (any open depths, any position up to the slice's size; no
     condition on the schema) -/
 theorem insertAt_openValid (S : Schema) (sl ins : Slice) (pos : Nat) (gap : List Node)
-    (hg : S.checkKids gap = true) (hgn : fnorm gap = true) (hn : fnorm sl.content = true)
+    (hg : S.checkKids gap = true) (hn : fnorm sl.content = true)
     (hpos : (pos : Int) ≤ sl.size)
     (hv : openValid S sl.openStart sl.openEnd sl.content = true)
     (h : sl.insertAt S pos gap = .ok (some ins)) :
@@ -594,7 +593,7 @@ theorem insertAt_openValid (S : Schema) (sl ins : Slice) (pos : Nat) (gap : List
   · rename_i c hc
     simp only [Except.ok.injEq, Option.some.injEq] at h
     subst h
-    exact insertInto_open_valid S gap hg hgn sl.content [] (pos + sl.openStart) _ _ c (by simpa using hn)
+    exact insertInto_open_valid S gap hg sl.content [] (pos + sl.openStart) _ _ c (by simpa using hn)
       (by simpa using hv) (by simp) (by simp only [fsize_nil, List.nil_append]; omega) (by simpa using hc)
   · simp at h
   · simp at h
